@@ -148,6 +148,63 @@ def _pool_worker(args):
     return i, ob.status, ob.backend, ob.ms, ob.model, ob.solver_output
 
 
+def _xcheck_worker(i):
+    """thorough tier: re-check a discharged / refuted SMT obligation with a second solver (cvc5 CLI, then z3 4.8.12 CLI)"""
+    ob = _POOL_OBS[i]
+    if not isinstance(ob.goal, z3.ExprRef) or getattr(ob, "ratfun", None) is not None or ob.status not in ("discharged", "refuted"):
+        return i, None
+    try:
+        asserts, ax = _formula(ob)
+        if any(_has_q(a) for a in asserts):
+            return i, "skipped(quantified)"
+        text = smt2_text(asserts + ax)
+    except Exception as ex:
+        return i, f"skipped({type(ex).__name__})"
+    r, _out = run_cvc5(text, 10)
+    if r == "unknown" and os.path.exists("/usr/bin/z3"):
+        with tempfile.NamedTemporaryFile("w", suffix=".smt2", delete=False) as fh:
+            fh.write(text)
+            path = fh.name
+        try:
+            p = subprocess.run(["/usr/bin/z3", "-T:10", path], capture_output=True, text=True, timeout=15)
+            first = (p.stdout or "").strip().splitlines()[:1]
+            r = first[0] if first and first[0] in ("sat", "unsat") else "unknown"
+            if r != "unknown":
+                r = "z3-4.8.12:" + r
+        except Exception:
+            r = "unknown"
+        finally:
+            os.unlink(path)
+    elif r != "unknown":
+        r = "cvc5:" + r
+    return i, r
+
+
+def cross_check(obs, jobs=None):
+    """returns (agreements, unknowns, disagreements[list of oid])"""
+    import multiprocessing as mp
+
+    global _POOL_OBS
+    _POOL_OBS = obs
+    agree, unk, dis = 0, 0, []
+    with mp.get_context("fork").Pool(jobs or min(16, os.cpu_count() or 1)) as pool:
+        for i, r in pool.imap_unordered(_xcheck_worker, range(len(obs))):
+            if r is None or r.startswith("skipped"):
+                continue
+            ob = obs[i]
+            if r == "unknown":
+                unk += 1
+                continue
+            verdict = r.split(":")[1]
+            expected = "unsat" if ob.status == "discharged" else "sat"
+            if verdict == expected:
+                agree += 1
+                ob.backend = f"{ob.backend}+{r.split(':')[0]}"
+            else:
+                dis.append(ob.oid)
+    return agree, unk, dis
+
+
 def discharge_all(obs, timeout_ms, jobs=None):
     """Discharge in forked worker processes (one obligation per task): parallel, and each query starts from the
     same solver state, so verdicts do not depend on the order of the obligations."""
